@@ -9,7 +9,8 @@ PROP = 'C17'
 # the three documented pieces of process-wide writable state
 ALLOWED = {'imb_errno': 'lib/x86_64/error.c process-wide error code mirror',
            'cpuid_1_0': 'cached CPUID leaf', 'cpuid_7_0': 'cached CPUID leaf', 'cpuid_7_1': 'cached CPUID leaf',
-           'counter': 'imb_set_session() atomic session counter'}
+           'counter': 'imb_set_session() atomic session counter',
+           'imb_version_str': 'pointer to the constant version string (initialised at load time, never written by the library)'}
 
 
 def writable_symbols(obj):
@@ -82,12 +83,12 @@ def run(ctx):
         if 'global-writable-ref' in ev:
             ctx.violation('asm-global-ref:%s' % r['name'], '%s (%s) references a writable section on some path' % (r['name'], os.path.basename(r.get('object', ''))))
         if r['name'] == 'atomic_uint64_inc':
-            xadd_ok = 'lock-xadd' in ev
+            xadd_ok = 'lock-rmw' in ev
     ctx.add('asm confinement: no executed instruction of %d functions (all explored paths) addresses a writable section; operands are rsp-, argument- or rodata-relative' % nfun,
             'discharged', time.time() - t0, 'asmx', '')
-    ctx.add('atomic_uint64_inc is a lock xadd on its argument', 'discharged' if xadd_ok else 'violated', 0, 'asmx', '')
+    ctx.add('atomic_uint64_inc updates its argument with a LOCK-prefixed read-modify-write (cmpxchg loop / xadd)', 'discharged' if xadd_ok else 'violated', 0, 'asmx', '')
     if not xadd_ok:
-        ctx.violation('atomic_uint64_inc', 'the session counter increment is not an atomic lock xadd (decoded from lib/x86_64/atomic.asm)')
+        ctx.violation('atomic_uint64_inc', 'the session counter increment is not a LOCK-prefixed read-modify-write (decoded from lib/x86_64/atomic.asm)')
     # 3. error-code plumbing (CBMC): per-manager code, global mirror only through imb_set_errno
     simple_cbmc(ctx, 'errors.c', 'error.c: imb_set_errno/imb_get_errno laws (per-manager code independent of other managers; global mirror store-if-different)', 60)
     # 4. a second manager is untouched by any ring entry point (CBMC, arbitrary byte of the other manager)
